@@ -275,6 +275,39 @@ def check(prog, rep):
                        f"`except {catches}: pass` around a tree traversal: when the recursion limit is hit the partial result is used as if it were complete",
                        loc=f"{fi.module.rel}:{n.lineno}", detail=f"except:{catches}")
     rep.ob("R15.5", "package", True, f"{nh} broad handler(s) around traversals inspected", detail="inventory", trivial=True)
+    # a RecursionError fallback that restarts into the buffer the failed attempt was filling: everything the recursive
+    # pass had already added before it overflowed is added a second time by the fallback
+    for fi in prog.functions.values():
+        for tr in walk_local(fi.node):
+            if not isinstance(tr, ast.Try):
+                continue
+            for h in tr.handlers:
+                catches = src(h.type) if h.type is not None else ""
+                if "RecursionError" not in catches:
+                    continue
+                def passed(stmts):
+                    out = set()
+                    for st in stmts:
+                        for c in ast.walk(st):
+                            if isinstance(c, ast.Call):
+                                out |= {a.id for a in list(c.args) + [k.value for k in c.keywords] if isinstance(a, ast.Name)}
+                    return out
+                shared = passed(tr.body) & passed(h.body)
+                la = local_assignments(fi.node)
+                bufs = []
+                for nm in sorted(shared):
+                    vals = [v for v in la.get(nm, []) if isinstance(v, ast.AST)]
+                    mutable = any(isinstance(v, (ast.List, ast.Dict, ast.Set)) or (isinstance(v, ast.Call) and (dotted(v.func) or "").split(".")[-1] in ("zeros", "empty", "ones", "full", "list", "dict", "set", "zeros_like", "defaultdict")) for v in vals)
+                    reset = any(isinstance(st, ast.Assign) and any(isinstance(t, ast.Name) and t.id == nm for t in st.targets) for st in h.body) or any(
+                        isinstance(c, ast.Call) and isinstance(c.func, ast.Attribute) and isinstance(c.func.value, ast.Name) and c.func.value.id == nm and c.func.attr in ("fill", "clear") for st in h.body for c in ast.walk(st)) or any(
+                        isinstance(st, ast.Assign) and any(isinstance(t, ast.Subscript) and isinstance(t.value, ast.Name) and t.value.id == nm and isinstance(t.slice, (ast.Slice, ast.Constant)) for t in st.targets) for st in h.body)
+                    if mutable and not reset:
+                        bufs.append(nm)
+                if bufs:
+                    rep.ob("R15.5", fi.qual.split(":")[1], False,
+                           f"the RecursionError fallback at line {h.lineno} is handed `{bufs[0]}`, the same buffer the recursive attempt in the try block was filling, without clearing it first: whatever the recursive pass had accumulated before the "
+                           f"overflow is counted again, so a deep tree gets different coefficients than the same formula written shallow",
+                           loc=f"{fi.module.rel}:{h.lineno}", detail=f"fallback-reuses-buffer:{bufs[0]}", robust=True)
 
     rep.expect_min("R15.1", 60)
     rep.expect_min("R15.3", 3)
